@@ -56,7 +56,8 @@ class TwinMonitor:
         self.prop = prop
 
     def init(self, st, ctx):
-        autos = st.automations
+        # the automation set that was *requested* (not what the state says it keeps): the twin performs those steps by hand
+        autos = self.requested = tuple(C.autos_of(ctx.cfg.get('autos')))
         m = C.build(ctx.cfg, autos=())
         try:
             drain(m, autos)
@@ -80,7 +81,7 @@ class TwinMonitor:
         na, nm = len(pre.operations), len(m.operations)
         try:
             apply(m2, ev)
-            drained = drain(m2, post.automations)
+            drained = drain(m2, self.requested)
         except Exception as exc:
             sig = exc_signature(exc)
             shape = error_shape(ctx.cfg, path)
@@ -151,6 +152,13 @@ def jobs(tier, seed):
             oo = {'players': True, 'show': (None, True)}
             oo.update(o)
             out.append({'family': fam, 'cfg': c, 'opts': oo, 'state_cap': 200000, 'time_cap': 300})
+    # eight-handed stud to the river: the deck runs out and seventh street is dealt as one community card by BOARD_DEALING
+    for game in ('FixedLimitSevenCardStud', 'FixedLimitRazz'):
+        for mask in reduced_masks():
+            c = C.stud((30,) * 8, game=game)
+            c['autos'] = mask
+            out.append({'family': 'stud-8-handed-reduced-lattice', 'cfg': c, 'opts': {'players': False, 'show': (None,), 'fold': False, 'raises': 'none'},
+                        'state_cap': 200000, 'time_cap': 400, 'dev_bound': 0})
     for fam, cfg, o in quick_extra_cfgs():
         for mask in reduced_masks():
             c = dict(cfg)
